@@ -204,14 +204,17 @@ func (h *VerifNodeHandle) Add(b byte, id int) {
 func (h *VerifNodeHandle) Remove(b byte) { h.ref.deleteChild(b) }
 
 // Find probes b. When the handle collapsed to a single child (Kind()==4)
-// it reports nothing.
+// it reports nothing. The id -2 stands for a slot without a child.
 func (h *VerifNodeHandle) Find(b byte) (int, bool) {
 	if h.ref.pointer == nil || h.ref.tag == nodeKindLeaf {
 		return 0, false
 	}
 	c := h.ref.findChild(b)
-	if c == nil || c.pointer == nil {
+	if c == nil {
 		return 0, false
+	}
+	if c.pointer == nil {
+		return -2, true // findChild handed out a slot that holds no child
 	}
 	if c.tag != nodeKindLeaf {
 		return -1, true
